@@ -741,7 +741,8 @@ func (g *GoFakeS3) createObject(bucket, object string, w http.ResponseWriter, r 
 
 	var md5Base64 string
 	if g.integrityCheck {
-		md5Base64 = r.Header.Get("Content-MD5")
+		// (every line of the header: sent twice it is a list, and no digest)
+		md5Base64 = strings.Join(r.Header[textproto.CanonicalMIMEHeaderKey("Content-MD5")], ",")
 
 		if _, ok := r.Header[textproto.CanonicalMIMEHeaderKey("Content-MD5")]; ok && md5Base64 == "" {
 			return ErrInvalidDigest // Satisfies s3tests
@@ -1025,7 +1026,8 @@ func (g *GoFakeS3) putMultipartUploadPart(bucket, object string, uploadID Upload
 	}
 
 	if g.integrityCheck {
-		md5Base64 := r.Header.Get("Content-MD5")
+		// (every line of the header: sent twice it is a list, and no digest)
+		md5Base64 := strings.Join(r.Header[textproto.CanonicalMIMEHeaderKey("Content-MD5")], ",")
 		if _, ok := r.Header[textproto.CanonicalMIMEHeaderKey("Content-MD5")]; ok && md5Base64 == "" {
 			return ErrInvalidDigest // Satisfies s3tests
 		}
